@@ -142,6 +142,17 @@ def check_levels(case, acc):
     def ind(l):
         return np.array([1.0 if v == l else 0.0 for v in col])
 
+    # without levels=: a str column and an unordered Categorical (whatever order its dtype stores) use the sorted levels,
+    # an ordered Categorical its declared order; the plain variable and C(variable) agree
+    natural = base[::-1] if case.get("dtype") == "ordered" else sorted(base)
+    for call in ("v", "C(v)", "T(v)"):
+        labs, X = design(f"y ~ 0 + {call}")
+        if labs != [f"{call}[{l}]" for l in natural] or not all(np.array_equal(X[:, j], ind(l)) for j, l in enumerate(natural)):
+            problems.append(("levels-order", f"'0 + {call}' ({case.get('dtype')} column): columns {labs} are not the indicators of {natural} in that order"))
+        if n > 1:
+            labs, X = design(f"y ~ {call}")
+            if labs != ["Intercept"] + [f"{call}[{l}]" for l in natural[1:]] or not all(np.array_equal(X[:, j + 1], ind(l)) for j, l in enumerate(natural[1:])):
+                problems.append(("default-reference", f"'{call}' ({case.get('dtype')} column): columns {labs}; expected the first level {natural[0]} as reference"))
     for call, kind in (("C(v, levels=lv)", "t"), ("T(v, levels=lv)", "t"), ("C(v, Treatment, levels=lv)", "t"), ("S(v, levels=lv)", "s"), ("C(v, Sum, levels=lv)", "s"),
                        ("C(S(v), levels=lv)", "s"), ("C(C(v, Sum), levels=lv)", "s"), ("C(T(v), levels=lv)", "t"), ("C(C(v), levels=lv)", "t")):
         # full coding: one indicator per level in the order given
@@ -211,6 +222,31 @@ def check_levels(case, acc):
             else:
                 continue
             break
+    # a later frame with a level the design has not seen (mode 'silent'): the rows of seen levels keep their coding, the
+    # unseen row is zero in every column of the factor
+    if n > 1:
+        import formulae
+
+        old = formulae.config["EVAL_UNSEEN_CATEGORIES"]
+        later = df.copy()
+        later["v"] = list(df["v"])
+        later.loc[0, "v"] = "zz"
+        try:
+            formulae.config["EVAL_UNSEEN_CATEGORIES"] = "silent"
+            for formula, dm, labs, X in built:
+                acc.calls += 1
+                try:
+                    got = np.asarray(dm.common.evaluate_new_data(later).design_matrix, dtype=float)
+                except Exception as e:
+                    problems.append(("coding-kept-on-new-data", f"{formula!r} with lv={lv}: evaluate_new_data on a frame with an unseen level (silent mode) raised {type(e).__name__}: {e}"))
+                    break
+                want = X.copy()
+                want[0, :] = [1.0 if l == "Intercept" else 0.0 for l in labs]
+                if got.shape != want.shape or not np.array_equal(got, want):
+                    problems.append(("coding-kept-on-new-data", f"{formula!r} built with lv={lv}: on a frame with one unseen level (silent mode) the other rows do not keep their coding / the unseen row is not zero"))
+                    break
+        finally:
+            formulae.config["EVAL_UNSEEN_CATEGORIES"] = old
     report(case, acc, problems, nontrivial=len(perm) > 2)
 
 
